@@ -5,6 +5,7 @@ import (
 	"fmt"
 	"io"
 	"strconv"
+	"unicode/utf8"
 )
 
 const encodeHex = "0123456789ABCDEF"
@@ -40,6 +41,14 @@ func writeQuotedString(w io.Writer, s string) {
 			}
 
 			start = i + 1
+		} else if c == utf8.RuneError {
+			if _, size := utf8.DecodeRuneInString(s[i:]); size == 1 {
+				// invalid UTF-8: write the replacement character instead of
+				// the raw byte so that the output is always valid JSON text.
+				io.WriteString(w, s[start:i])
+				io.WriteString(w, `\ufffd`)
+				start = i + 1
+			}
 		}
 	}
 
